@@ -185,32 +185,32 @@ type Timer struct {
 
 // Sched is the state of one execution.
 type Sched struct {
-	gs      []*G
-	cur     *G
-	now     Duration
-	timers  []*Timer
-	nTimer  int
-	nChan   int
-	nObj    int
-	pubSeq  int
-	prefix  []int
-	points  []Point
-	log     []Event
-	steps   int
-	cfg     *Config
-	ending  bool
-	abort   bool
-	reason  string // "", "main-returned", "deadlock", "horizon", "step-limit", "fatal"
-	endCh   chan struct{}
-	main    *G
-	fps     map[uint64]struct{}
-	races   map[string]bool
-	shadow  map[unsafe.Pointer]*shadowLoc
-	diverge string
-	spins   int
+	gs          []*G
+	cur         *G
+	now         Duration
+	timers      []*Timer
+	nTimer      int
+	nChan       int
+	nObj        int
+	pubSeq      int
+	prefix      []int
+	points      []Point
+	log         []Event
+	steps       int
+	cfg         *Config
+	ending      bool
+	abort       bool
+	reason      string // "", "main-returned", "deadlock", "horizon", "step-limit", "fatal"
+	endCh       chan struct{}
+	main        *G
+	fps         map[uint64]struct{}
+	races       map[string]bool
+	shadow      map[unsafe.Pointer]*shadowLoc
+	diverge     string
+	spins       int
 	lastAdvance int
 	spinFair    bool
-	quiet   bool
+	quiet       bool
 }
 
 // S is the scheduler of the execution in progress (one per process).
@@ -639,7 +639,6 @@ func (s *Sched) choice(n int, kind uint8, preempt bool) int {
 	s.points = append(s.points, Point{N: n, Chosen: c, Kind: kind, Preempt: preempt})
 	return c
 }
-
 
 // BusySpin is logged when the spin rule had to advance the clock.
 type BusySpin struct{ Site string }
